@@ -16,6 +16,7 @@ Core Lean only.
 import Penguin.Model.PairAll
 import Penguin.Lemmas.MuxIntegritySrc
 import Penguin.Lemmas.MuxLeak
+import Penguin.Lemmas.MuxEof
 
 namespace Penguin.PairAll
 open Penguin.Mux
@@ -33,6 +34,43 @@ def isAck (x : Nat) : Msg → Bool
 def isPush (x : Nat) : Msg → Bool
   | .frame (.push f _) => f == x
   | _ => false
+
+def isFin (x : Nat) : Msg → Bool
+  | .frame (.finish f) => f == x
+  | _ => false
+
+def isBind (x : Nat) : Msg → Bool
+  | .frame (.bind f _ _ _) => f == x
+  | _ => false
+
+/-- What a small step records beside what it sends and accepts: a payload queued as `Push x` by a write, or a
+    `Finish x` processed while the slot of `x` is `Established j`. -/
+inductive XL where
+  | wrote (d : Bytes)
+  | fin
+deriving DecidableEq, Repr
+
+/-- The payloads queued as `Push x` among the records, in order. -/
+def XL.wrotes : List XL → List Bytes
+  | [] => []
+  | .wrote d :: r => d :: XL.wrotes r
+  | .fin :: r => XL.wrotes r
+
+/-- The number of `Finish x` processed for object `j` among the records. -/
+def XL.fins : List XL → Nat
+  | [] => 0
+  | .fin :: r => XL.fins r + 1
+  | .wrote _ :: r => XL.fins r
+
+theorem XL.wrotes_append (a b : List XL) : XL.wrotes (a ++ b) = XL.wrotes a ++ XL.wrotes b := by
+  induction a with
+  | nil => rfl
+  | cons t r ih => cases t <;> simp [XL.wrotes, ih]
+
+theorem XL.fins_append (a b : List XL) : XL.fins (a ++ b) = XL.fins a + XL.fins b := by
+  induction a with
+  | nil => simp [XL.fins]
+  | cons t r ih => cases t <;> simp [XL.fins, ih] <;> omega
 
 /-- The payloads of the `Push x` frames among messages, in order. -/
 def pX (x : Nat) : List Msg → List Bytes
@@ -98,6 +136,9 @@ structure View where
   srcEnded : Bool
   canJ : Bool               -- `x`'s slot is `Established j`, object `j` has its `Sender` and an open `Receiver`
   len : Nat                 -- number of stream objects
+  nw : Nat                  -- how many stream objects carrying `x` can still be written (`finishSent = false`)
+  bh : Bool                 -- a bind request of the peer with id `x` is held (queued, parked or handed out)
+  rxJ : Bool                -- object `j` exists and its `Receiver` is open
 
 /-- A `Push x` arriving now is offered to object `j` (it is accepted if the bounded queue has room). -/
 def canAccF (x j : Nat) (fl : List (Nat × Slot)) (objs : List Obj) : Bool :=
@@ -108,102 +149,158 @@ def canAccF (x j : Nat) (fl : List (Nat × Slot)) (objs : List Obj) : Bool :=
 
 def canAcc (x j : Nat) (e : EP) : Bool := canAccF x j e.flows e.objs
 
+/-- A bind request with id `x` of the peer is in the bind queue, parked, or was handed to the application. -/
+def bindHeld (x : Nat) (e : EP) : Bool :=
+  e.bindq.any (fun b => b.fid == x) || e.held.any (fun b => b.fid == x) ||
+    (match e.park with | some (.bind b) => b.fid == x | _ => false)
+
+/-- Object `j` exists and its `Receiver` is open. -/
+def rxOpenJ (j : Nat) (objs : List Obj) : Bool :=
+  match objs[j]? with | some o => o.rxOpen | none => false
+
 /-- The view of `e`, with `l` for its inbox (most functions of the endpoint model neither read nor write
     the inbox; the task's loops pass it around as an argument). -/
 def view (x j : Nat) (e : EP) (l : List WsIn) : View :=
   { slot := lookup e.flows x, nobj := e.objs.countP (fun o => o.fid == x), cnt := e.rng.count x,
     rngNil := e.rng.isEmpty, inbox := l, outq := e.outq, outClosed := e.outClosed,
-    srcEnded := e.srcEnded, canJ := canAcc x j e, len := e.objs.length }
+    srcEnded := e.srcEnded, canJ := canAcc x j e, len := e.objs.length,
+    nw := e.objs.countP (fun o => o.fid == x && !o.finishSent), bh := bindHeld x e, rxJ := rxOpenJ j e.objs }
 
-/-- The atomic changes of a view, with the messages handed to the transport and the payloads accepted
-    into object `j`. -/
-inductive AStep (x j : Nat) : View → View → List Msg → List Bytes → Prop
+/-- The atomic changes of a view, with the messages handed to the transport, the payloads accepted into object
+    `j`, and the records `XL`. -/
+inductive AStep (x j : Nat) : View → View → List Msg → List Bytes → List XL → Prop
   /-- the send loop hands the oldest queued message to the transport -/
-  | emit (v : View) (m : Msg) (r : List Msg) (h : v.outq = m :: r) : AStep x j v { v with outq := r } [m] []
+  | emit (v : View) (m : Msg) (r : List Msg) (h : v.outq = m :: r) : AStep x j v { v with outq := r } [m] [] []
   /-- the sink is closed (a WebSocket Close goes out) -/
-  | sendClose (v : View) : AStep x j v v [.close] []
-  /-- a message is queued: never a `Connect x`; an `Acknowledge x` or `Push x` only by an endpoint that has
-      a stream object carrying `x` -/
-  | enq (v : View) (m : Msg) (hc : v.outClosed = false) (h1 : isConn x m = false)
-      (h2 : isAck x m = true ∨ isPush x m = true → 0 < v.nobj) :
-      AStep x j v { v with outq := v.outq ++ [m] } [] []
+  | sendClose (v : View) : AStep x j v v [.close] [] []
+  /-- a message is queued that is neither `Connect x`, `Bind x`, `Finish x` nor `Push x`; an `Acknowledge x` only
+      by an endpoint that has a stream object carrying `x` -/
+  | enq (v : View) (m : Msg) (hc : v.outClosed = false) (h1 : isConn x m = false) (h3 : isPush x m = false)
+      (h4 : isFin x m = false) (h5 : isBind x m = false) (h2 : isAck x m = true → 0 < v.nobj) :
+      AStep x j v { v with outq := v.outq ++ [m] } [] [] []
+  /-- a write queues a `Push x`: only through a stream object carrying `x` whose write side is open -/
+  | enqPush (v : View) (d : Bytes) (hc : v.outClosed = false) (hw : 0 < v.nw) :
+      AStep x j v { v with outq := v.outq ++ [.frame (.push x d)] } [] [] [.wrote d]
+  /-- a stream object carrying `x` is shut down: its write side closes and a `Finish x` is queued -/
+  | enqFinS (v : View) (hc : v.outClosed = false) (hw : 0 < v.nw) :
+      AStep x j v { v with outq := v.outq ++ [.frame (.finish x)], nw := v.nw - 1 } [] [] []
+  /-- a held bind request with id `x` is accepted: a `Finish x` is queued -/
+  | enqFinB (v : View) (hc : v.outClosed = false) (hb : v.bh = true) :
+      AStep x j v { v with outq := v.outq ++ [.frame (.finish x)] } [] [] []
   /-- ids are consumed from the script without `x` being drawn -/
   | rng (v : View) (c : Nat) (n : Bool) (hc : c ≤ v.cnt) (hn : v.rngNil = true → n = true) :
-      AStep x j v { v with cnt := c, rngNil := n } [] []
-  /-- `x` is drawn for a request (stream or bind): it leaves the script (or the script is exhausted), it
-      had no slot, the request frame is queued -/
+      AStep x j v { v with cnt := c, rngNil := n } [] [] []
+  /-- `x` is drawn for a request: it leaves the script (or the script is exhausted), it had no slot, and
+      either a stream is requested (`Connect x` queued) or a bind (`Bind x` queued) -/
   | draw (v : View) (c : Nat) (n : Bool) (s : Slot) (m : Msg) (hc : c ≤ v.cnt) (hn : v.rngNil = true → n = true)
-      (hd : c < v.cnt ∨ n = true) (hs : v.slot = none) (ho : v.outClosed = false) (hne : ∀ i, s ≠ .established i)
-      (hm1 : isAck x m = false) (hm2 : isPush x m = false) :
-      AStep x j v { v with cnt := c, rngNil := n, slot := some s, outq := v.outq ++ [m] } [] []
-  /-- the receive loop (or the wind-down) takes an item that is not a `Connect x`, `Acknowledge x`, `Push x` -/
+      (hd : c < v.cnt ∨ n = true) (hs : v.slot = none) (ho : v.outClosed = false)
+      (hk : (∃ q, s = .requested q ∧ isConn x m = true) ∨ (∃ q, s = .bindRequested q ∧ isBind x m = true)) :
+      AStep x j v { v with cnt := c, rngNil := n, slot := some s, outq := v.outq ++ [m] } [] [] []
+  /-- the receive loop (or the wind-down) takes an item that is not a `Connect x`, `Acknowledge x`, `Push x`,
+      `Finish x`, `Bind x` -/
   | pop (v : View) (w : WsIn) (r : List WsIn) (h : v.inbox = w :: r)
-      (hw : ∀ m, w = .msg m → isConn x m = false ∧ isAck x m = false ∧ isPush x m = false) :
-      AStep x j v { v with inbox := r, srcEnded := v.srcEnded || isEnd w } [] []
-  /-- the slot of `x` is released, or object `j` stops accepting -/
-  | degrade (v : View) (s : Option Slot) (c : Bool) (hs : s = v.slot ∨ s = none)
-      (hc : c = true → v.canJ = true ∧ s = v.slot) : AStep x j v { v with slot := s, canJ := c } [] []
+      (hw : ∀ m, w = .msg m → isConn x m = false ∧ isAck x m = false ∧ isPush x m = false ∧ isFin x m = false ∧
+        isBind x m = false) :
+      AStep x j v { v with inbox := r, srcEnded := v.srcEnded || isEnd w } [] [] []
+  /-- a `Finish x` is processed: an `Established` slot stays (its object loses its `Sender`), a pending slot is
+      released; recorded if the slot is `Established j` -/
+  | popFin (v : View) (r : List WsIn) (s : Option Slot) (h : v.inbox = .msg (.frame (.finish x)) :: r)
+      (hs : (∃ i, v.slot = some (.established i) ∧ s = v.slot) ∨ ((∀ i, v.slot ≠ some (.established i)) ∧ s = none)) :
+      AStep x j v { v with inbox := r, slot := s, canJ := false } [] []
+        (if v.slot = some (.established j) then [.fin] else [])
+  /-- a `Bind x` is processed: it may become a held bind request -/
+  | popBind (v : View) (m : Msg) (r : List WsIn) (b : Bool) (h : v.inbox = .msg m :: r) (hm : isBind x m = true)
+      (hb : v.bh = true → b = true) : AStep x j v { v with inbox := r, bh := b } [] [] []
+  /-- the slot of `x` is released, object `j` stops accepting (only by losing the slot or closing its receiver),
+      write sides close, held bind requests are forgotten -/
+  | degrade (v : View) (s : Option Slot) (c : Bool) (w : Nat) (b rx : Bool) (hs : s = v.slot ∨ s = none)
+      (hc : c = true → v.canJ = true ∧ s = v.slot) (hk : v.canJ = true → s = v.slot → rx = true → c = true)
+      (hw : w ≤ v.nw) (hb : b = true → v.bh = true) (hr : rx = true → v.rxJ = true) :
+      AStep x j v { v with slot := s, canJ := c, nw := w, bh := b, rxJ := rx } [] [] []
   /-- a `Connect x` is refused -/
   | connRej (v : View) (m : Msg) (r : List WsIn) (h : v.inbox = .msg m :: r) (hm : isConn x m = true) :
-      AStep x j v { v with inbox := r } [] []
+      AStep x j v { v with inbox := r } [] [] []
   /-- a `Connect x` creates a stream object (index `len`) and is acknowledged -/
   | connNew (v : View) (m : Msg) (r : List WsIn) (n : Nat) (h : v.inbox = .msg m :: r) (hm : isConn x m = true)
       (hs : v.slot = none) :
       AStep x j v { v with inbox := r, slot := some (.established v.len), len := v.len + 1, nobj := v.nobj + 1,
-                           canJ := v.len == j,
-                           outq := if v.outClosed then v.outq else v.outq ++ [.frame (.acknowledge x n)] } [] []
+                           canJ := v.len == j, nw := v.nw + 1, rxJ := v.rxJ || v.len == j,
+                           outq := if v.outClosed then v.outq else v.outq ++ [.frame (.acknowledge x n)] } [] [] []
   /-- an `Acknowledge x` answers this endpoint's request: a stream object (index `len`) is created -/
   | ackNew (v : View) (m : Msg) (r : List WsIn) (q : Nat) (h : v.inbox = .msg m :: r) (hm : isAck x m = true)
       (hs : v.slot = some (.requested q)) :
       AStep x j v { v with inbox := r, slot := some (.established v.len), len := v.len + 1, nobj := v.nobj + 1,
-                           canJ := v.len == j } [] []
+                           canJ := v.len == j, nw := v.nw + 1, rxJ := v.rxJ || v.len == j } [] [] []
   /-- any other `Acknowledge x` -/
   | ackOld (v : View) (m : Msg) (r : List WsIn) (h : v.inbox = .msg m :: r) (hm : isAck x m = true)
-      (hs : ∀ q, v.slot ≠ some (.requested q)) : AStep x j v { v with inbox := r } [] []
+      (hs : ∀ q, v.slot ≠ some (.requested q)) : AStep x j v { v with inbox := r } [] [] []
   /-- a `Push x` is accepted into object `j` -/
   | pushAcc (v : View) (d : Bytes) (r : List WsIn) (h : v.inbox = .msg (.frame (.push x d)) :: r) (hc : v.canJ = true) :
-      AStep x j v { v with inbox := r } [] [d]
+      AStep x j v { v with inbox := r } [] [d] []
   /-- a `Push x` is not accepted into object `j`: `j` was not accepting, or its queue was full and the flow
       is closed -/
   | pushRej (v : View) (d : Bytes) (r : List WsIn) (s : Option Slot) (h : v.inbox = .msg (.frame (.push x d)) :: r)
       (hs : (s = v.slot ∧ v.canJ = false) ∨ s = none) :
-      AStep x j v { v with inbox := r, slot := s, canJ := false } [] []
+      AStep x j v { v with inbox := r, slot := s, canJ := false } [] [] []
   /-- stream objects of other flows are created -/
-  | grow (v : View) (n : Nat) (h : v.len ≤ n) : AStep x j v { v with len := n } [] []
+  | grow (v : View) (n : Nat) (h : v.len ≤ n) : AStep x j v { v with len := n } [] [] []
   /-- the wind-down finishes: what the source still had is dropped, every slot is released -/
-  | clearInbox (v : View) : AStep x j v { v with inbox := [], slot := none, canJ := false } [] []
+  | clearInbox (v : View) : AStep x j v { v with inbox := [], slot := none, canJ := false } [] [] []
   /-- the outbound queue is closed (what it holds is still sent) -/
-  | closeOut (v : View) : AStep x j v { v with outClosed := true } [] []
+  | closeOut (v : View) : AStep x j v { v with outClosed := true } [] [] []
   /-- the outbound queue is closed and what it held is dropped -/
-  | clearOutq (v : View) : AStep x j v { v with outq := [], outClosed := true } [] []
+  | clearOutq (v : View) : AStep x j v { v with outq := [], outClosed := true } [] [] []
 
 /-- Sequences of small steps; labels concatenate. -/
-inductive Star (x j : Nat) : View → View → List Msg → List Bytes → Prop
-  | refl (v : View) : Star x j v v [] []
-  | step {v v1 v2 : View} {w1 w2 : List Msg} {a1 a2 : List Bytes} :
-      AStep x j v v1 w1 a1 → Star x j v1 v2 w2 a2 → Star x j v v2 (w1 ++ w2) (a1 ++ a2)
+inductive Star (x j : Nat) : View → View → List Msg → List Bytes → List XL → Prop
+  | refl (v : View) : Star x j v v [] [] []
+  | step {v v1 v2 : View} {w1 w2 : List Msg} {a1 a2 : List Bytes} {x1 x2 : List XL} :
+      AStep x j v v1 w1 a1 x1 → Star x j v1 v2 w2 a2 x2 → Star x j v v2 (w1 ++ w2) (a1 ++ a2) (x1 ++ x2)
 
-theorem Star.cast {x j : Nat} {v v' u' : View} {w w' : List Msg} {a a' : List Bytes} (s : Star x j v v' w a)
-    (hv : u' = v') (hw : w' = w) (ha : a' = a) : Star x j v u' w' a' := by
-  subst hv hw ha; exact s
+theorem Star.cast {x j : Nat} {v v' u' : View} {w w' : List Msg} {a a' : List Bytes} {t t' : List XL}
+    (s : Star x j v v' w a t) (hv : u' = v') (hw : w' = w) (ha : a' = a) (ht : t' = t := by rfl) :
+    Star x j v u' w' a' t' := by
+  subst hv hw ha ht; exact s
 
-theorem Star.single {x j : Nat} {v v' : View} {w : List Msg} {a : List Bytes} (s : AStep x j v v' w a) :
-    Star x j v v' w a :=
-  (Star.step s (Star.refl v')).cast rfl (by simp) (by simp)
+theorem Star.single {x j : Nat} {v v' : View} {w : List Msg} {a : List Bytes} {t : List XL}
+    (s : AStep x j v v' w a t) : Star x j v v' w a t :=
+  (Star.step s (Star.refl v')).cast rfl (by simp) (by simp) (by simp)
 
-theorem Star.trans {x j : Nat} {v v1 v2 : View} {w1 w2 : List Msg} {a1 a2 : List Bytes}
-    (s : Star x j v v1 w1 a1) (t : Star x j v1 v2 w2 a2) : Star x j v v2 (w1 ++ w2) (a1 ++ a2) := by
+theorem Star.trans {x j : Nat} {v v1 v2 : View} {w1 w2 : List Msg} {a1 a2 : List Bytes} {t1 t2 : List XL}
+    (s : Star x j v v1 w1 a1 t1) (t : Star x j v1 v2 w2 a2 t2) : Star x j v v2 (w1 ++ w2) (a1 ++ a2) (t1 ++ t2) := by
   induction s with
   | refl v => exact t
-  | step st _ ih => exact (Star.step st (ih t)).cast rfl (by simp) (by simp)
+  | step st _ ih => exact (Star.step st (ih t)).cast rfl (by simp) (by simp) (by simp)
 
 /-! ### The relation every endpoint function satisfies -/
 
-/-- From `e` with inbox `l` to `e'` with inbox `l'`, emitting `evs`, with accept log `L`: the view moved by
-    small steps whose labels are the messages handed to the transport and the payloads accepted into
-    object `j`. -/
+/-- From `e` with inbox `l` to `e'` with inbox `l'`, emitting `evs`, with accept log `L` and records `X`: the
+    view moved by small steps whose labels are the messages handed to the transport, the payloads accepted
+    into object `j`, and `X`. -/
+def SimX (x j : Nat) (l : List WsIn) (e : EP) (l' : List WsIn) (e' : EP) (evs : List Ev) (L : Log) (X : List XL) : Prop :=
+  Star x j (view x j e l) (view x j e' l') (wireMsgs evs) (Log.dataOf L j) X
+
+/-- … with nothing recorded: no write queued a `Push x`, no `Finish x` was processed for object `j`. -/
 def Sim (x j : Nat) (l : List WsIn) (e : EP) (l' : List WsIn) (e' : EP) (evs : List Ev) (L : Log) : Prop :=
-  Star x j (view x j e l) (view x j e' l') (wireMsgs evs) (Log.dataOf L j)
+  SimX x j l e l' e' evs L []
+
+/-- The records of the `Finish x` frames processed for object `j` among end events (`Lemmas/MuxEof.lean`). -/
+def finsOf (x j : Nat) (D : List EndEv) : List XL :=
+  (D.filter (fun p => p == (j, EndCause.peerFinish x))).map (fun _ => XL.fin)
+
+/-- The records of the successful writes on flow `x` (`Ghost.wrote` entries: object, flow id, payload). -/
+def xlOfWrote (x : Nat) (W : List (Nat × Nat × Bytes)) : List XL :=
+  (W.filter (fun t => t.2.1 == x)).map (fun t => XL.wrote t.2.2)
+
+theorem xlOfWrote_append (x : Nat) (a b : List (Nat × Nat × Bytes)) : xlOfWrote x (a ++ b) = xlOfWrote x a ++ xlOfWrote x b := by
+  simp [xlOfWrote]
+
+@[simp] theorem xlOfWrote_nil (x : Nat) : xlOfWrote x [] = [] := rfl
+
+theorem finsOf_append (x j : Nat) (a b : List EndEv) : finsOf x j (a ++ b) = finsOf x j a ++ finsOf x j b := by
+  simp [finsOf]
+
+@[simp] theorem finsOf_nil (x j : Nat) : finsOf x j [] = [] := rfl
 
 theorem Log.dataOf_append (a b : Log) (i : Nat) : Log.dataOf (a ++ b) i = Log.dataOf a i ++ Log.dataOf b i := by
   simp [Log.dataOf]
@@ -217,11 +314,45 @@ theorem Log.dataOf_single_ne (i k : Nat) (d : Bytes) (h : k ≠ i) : Log.dataOf 
 section
 variable {x j : Nat}
 
+theorem Sim.toX {l l' : List WsIn} {e e' : EP} {evs : List Ev} {L : Log} (s : Sim x j l e l' e' evs L) :
+    SimX x j l e l' e' evs L [] := s
+
+theorem SimX.trans {la lb lc : List WsIn} {a b c : EP} {ev1 ev2 : List Ev} {L1 L2 : Log} {X1 X2 : List XL}
+    (s : SimX x j la a lb b ev1 L1 X1) (t : SimX x j lb b lc c ev2 L2 X2) :
+    SimX x j la a lc c (ev1 ++ ev2) (L1 ++ L2) (X1 ++ X2) :=
+  (Star.trans s t).cast rfl (wireMsgs_append _ _) (Log.dataOf_append _ _ _) rfl
+
+/-- Change the way the labels are written. -/
+theorem SimX.lbl {l l' : List WsIn} {e e' : EP} {evs evs' : List Ev} {L L' : Log} {X X' : List XL}
+    (s : SimX x j l e l' e' evs L X) (hw : wireMsgs evs' = wireMsgs evs) (hl : Log.dataOf L' j = Log.dataOf L j)
+    (hx : X' = X) : SimX x j l e l' e' evs' L' X' :=
+  Star.cast s rfl hw hl hx
+
+theorem SimX.evs {l l' : List WsIn} {e e' : EP} {evs evs' : List Ev} {L : Log} {X : List XL}
+    (s : SimX x j l e l' e' evs L X) (h : evs' = evs) : SimX x j l e l' e' evs' L X := h ▸ s
+
+theorem SimX.log {l l' : List WsIn} {e e' : EP} {evs : List Ev} {L L' : Log} {X : List XL}
+    (s : SimX x j l e l' e' evs L X) (h : L' = L) : SimX x j l e l' e' evs L' X := h ▸ s
+
+theorem SimX.rec {l l' : List WsIn} {e e' : EP} {evs : List Ev} {L : Log} {X X' : List XL}
+    (s : SimX x j l e l' e' evs L X) (h : X' = X) : SimX x j l e l' e' evs L X' := h ▸ s
+
+theorem SimX.congr {l l' : List WsIn} {e e' a a' : EP} {evs : List Ev} {L : Log} {X : List XL}
+    (s : SimX x j l e l' e' evs L X) (h1 : view x j a l = view x j e l) (h2 : view x j a' l' = view x j e' l') :
+    SimX x j l a l' a' evs L X := by
+  unfold SimX at *; rw [h1, h2]; exact s
+
+/-- One small step. -/
+theorem SimX.one {l l' : List WsIn} {e e' : EP} {evs : List Ev} {L : Log} {v' : View} {w : List Msg} {a : List Bytes}
+    {X X' : List XL} (s : AStep x j (view x j e l) v' w a X) (hv : view x j e' l' = v') (hw : wireMsgs evs = w)
+    (hl : Log.dataOf L j = a) (hx : X' = X) : SimX x j l e l' e' evs L X' :=
+  (Star.single s).cast hv hw hl hx
+
 theorem Sim.refl (l : List WsIn) (e : EP) : Sim x j l e l e [] [] := Star.refl _
 
 theorem Sim.trans {la lb lc : List WsIn} {a b c : EP} {ev1 ev2 : List Ev} {L1 L2 : Log}
     (s : Sim x j la a lb b ev1 L1) (t : Sim x j lb b lc c ev2 L2) : Sim x j la a lc c (ev1 ++ ev2) (L1 ++ L2) :=
-  (Star.trans s t).cast rfl (wireMsgs_append _ _) (Log.dataOf_append _ _ _)
+  (SimX.trans s t).rec rfl
 
 theorem Sim.after {la lb lc : List WsIn} {a b c : EP} {ev1 ev2 : List Ev} {L1 L2 : Log}
     (t : Sim x j lb b lc c ev2 L2) (s : Sim x j la a lb b ev1 L1) : Sim x j la a lc c (ev1 ++ ev2) (L1 ++ L2) :=
@@ -230,7 +361,7 @@ theorem Sim.after {la lb lc : List WsIn} {a b c : EP} {ev1 ev2 : List Ev} {L1 L2
 /-- Change the way the labels are written. -/
 theorem Sim.lbl {l l' : List WsIn} {e e' : EP} {evs evs' : List Ev} {L L' : Log} (s : Sim x j l e l' e' evs L)
     (hw : wireMsgs evs' = wireMsgs evs) (hl : Log.dataOf L' j = Log.dataOf L j) : Sim x j l e l' e' evs' L' :=
-  Star.cast s rfl hw hl
+  SimX.lbl s hw hl rfl
 
 theorem Sim.evs {l l' : List WsIn} {e e' : EP} {evs evs' : List Ev} {L : Log} (s : Sim x j l e l' e' evs L)
     (h : evs' = evs) : Sim x j l e l' e' evs' L := h ▸ s
@@ -252,19 +383,19 @@ theorem Sim.tr1 {la lb lc : List WsIn} {a b c : EP} {ev1 : List Ev} {L : Log} (s
 
 /-- The same relation between states with the same views. -/
 theorem Sim.congr {l l' : List WsIn} {e e' a a' : EP} {evs : List Ev} {L : Log} (s : Sim x j l e l' e' evs L)
-    (h1 : view x j a l = view x j e l) (h2 : view x j a' l' = view x j e' l') : Sim x j l a l' a' evs L := by
-  unfold Sim at *; rw [h1, h2]; exact s
+    (h1 : view x j a l = view x j e l) (h2 : view x j a' l' = view x j e' l') : Sim x j l a l' a' evs L :=
+  SimX.congr s h1 h2
 
 /-- The view did not change; nothing was handed to the transport, nothing accepted into `j`. -/
 theorem Sim.same {l : List WsIn} {e e' : EP} {evs : List Ev} {L : Log} (hv : view x j e' l = view x j e l)
     (hw : wireMsgs evs = []) (hl : Log.dataOf L j = []) : Sim x j l e l e' evs L := by
-  unfold Sim; rw [hv, hw, hl]; exact Star.refl _
+  unfold Sim SimX; rw [hv, hw, hl]; exact Star.refl _
 
 /-- One small step. -/
 theorem Sim.one {l l' : List WsIn} {e e' : EP} {evs : List Ev} {L : Log} {v' : View} {w : List Msg} {a : List Bytes}
-    (s : AStep x j (view x j e l) v' w a) (hv : view x j e' l' = v') (hw : wireMsgs evs = w)
+    (s : AStep x j (view x j e l) v' w a []) (hv : view x j e' l' = v') (hw : wireMsgs evs = w)
     (hl : Log.dataOf L j = a) : Sim x j l e l' e' evs L :=
-  (Star.single s).cast hv hw hl
+  SimX.one s hv hw hl rfl
 
 end
 
